@@ -32,7 +32,7 @@ ASSUMPTIONS = [
 CELLS = [f"{r}.{d}.{s}" for r in ("plain", "renamed")
          for d in ("nodefault", "valid", "invalid", "nested", "composition")
          for s in ("supplied", "omitted")]
-REQUIRED_COUNTERS = ["objects", "subsets", "members.checked", "owner.class", "owner.parsed", "owner.untyped",
+REQUIRED_COUNTERS = ["objects", "subsets", "members.checked", "owner.class", "owner.parsed", "owner.untyped", "owner.subclass",
                      "novalue.calls", "novalue.default_valid", "novalue.default_invalid", "novalue.notpassed",
                      "class_novalue.calls", "pattern_overlap", "defaults.scribbled"] + [f"cell.{c}" for c in CELLS]
 
@@ -79,8 +79,13 @@ def make_property(rng, counter):
         inner = {"t": "Object", "name": f"N{counter[0]}", "kw": {"default": {}}, "base": None, "id": 700 + counter[0],
                  "props": {"deep": {"el": {"t": "Integer", "kw": {"default": 7}}, "required": False, "source": None},
                            "other": {"el": {"t": "String", "kw": {}}, "required": False, "source": None}}}
-        if rng.random() < 0.5:
+        roll = rng.random()
+        if roll < 0.35:
             inner["kw"]["default"] = {"other": "given"}
+        elif roll < 0.6:
+            # passes the object-level keywords but holds a member that is invalid for its property:
+            # still "returned as-is, never an error"
+            inner["kw"]["default"] = rng.choice([{"deep": "not-an-int"}, {"other": 5}, {"deep": 1, "other": [1]}])
         return {"el": inner, "required": required, "source": None}, kind
     if kind == "composition":
         comp = rng.choice(["AnyOf", "OneOf", "AllOf"])
@@ -131,7 +136,7 @@ def make_object(rng, counter):
     if rng.random() < 0.35:
         # patterns / additional with their own defaults; some patterns match a declared JSON or Python name
         target = rng.choice(names)
-        json_name = props[target]["source"] or target
+        json_name = props[target]["source"] if props[target]["source"] is not None else target
         pattern = rng.choice(["^" + json_name[0], "^" + target[0], "^zz", "."]) if json_name else "^zz"
         try:
             import re  # pylint: disable=import-outside-toplevel
@@ -144,9 +149,25 @@ def make_object(rng, counter):
     if rng.random() < 0.3:
         kw["additionalProperties"] = {"t": "Element", "kw": {"default": "from-additional"}}
     counter[0] += 1
-    owner = rng.choice(["class", "parsed", "untyped"])
+    owner = rng.choice(["class", "parsed", "untyped", "subclass"])
     if owner == "untyped":
         spec = {"t": "Element", "kw": {**kw, "properties": props}}
+    elif owner == "subclass":
+        # the properties are split over a base class and a subclass; one of them may be re-declared by
+        # the subclass with another default; the BASE is used before the subclass
+        split = rng.randint(0, len(names))
+        base_props = {name: props[name] for name in names[:split]}
+        child_props = {name: props[name] for name in names[split:]}
+        if base_props and rng.random() < 0.5:
+            redeclared = rng.choice(sorted(base_props))
+            child_props[redeclared] = base_props[redeclared]
+            other, _kind = make_property(rng, counter)
+            other["source"] = base_props[redeclared]["source"]
+            base_props[redeclared] = other
+        base = {"t": "Object", "name": f"Base{counter[0]}", "kw": {}, "props": base_props, "base": None,
+                "id": 800 + counter[0]}
+        spec = {"t": "Object", "name": f"Own{counter[0]}", "kw": kw, "props": child_props, "base": base,
+                "id": 600 + counter[0]}
     else:
         spec = {"t": "Object", "name": f"Own{counter[0]}", "kw": kw, "props": props, "base": None,
                 "id": 600 + counter[0]}
@@ -194,7 +215,15 @@ def check_object(ctx, sut, fpm, rng, spec, owner, props, kinds, overlap):
             attr_of = {p.source: name for name, p in element.properties.items()}
         else:
             element = gen_dsl.build(spec)
-            attr_of = {(p["source"] or name): name for name, p in props.items()}
+            attr_of = {(p["source"] if p["source"] is not None else name): name for name, p in props.items()}
+            if owner == "subclass":
+                base_cls = element.__mro__[1]
+                for warm in ({}, {"zz": 1}):
+                    sut.call(base_cls, warm)
+                    try:
+                        base_cls()
+                    except Exception:  # pylint: disable=broad-except
+                        pass
     except Exception as exc:  # pylint: disable=broad-except
         ctx.count("build_failed." + type(exc).__name__)
         return
@@ -212,7 +241,7 @@ def check_object(ctx, sut, fpm, rng, spec, owner, props, kinds, overlap):
     for subset in subsets:
         value = {}
         for name in subset:
-            value[props[name]["source"] or name] = copy.deepcopy(supplied_values[name])
+            value[props[name]["source"] if props[name]["source"] is not None else name] = copy.deepcopy(supplied_values[name])
         ctx.count("subsets")
         ctx.evaluation()
         case = {"spec": spec, "owner": owner, "supplied": list(subset), "value": value}
@@ -235,7 +264,7 @@ def check_object(ctx, sut, fpm, rng, spec, owner, props, kinds, overlap):
         store = result._dict if isinstance(result, sut.Object) else result  # pylint: disable=protected-access
         for name, pspec in props.items():
             supplied = name in subset
-            json_name = pspec["source"] or name
+            json_name = pspec["source"] if pspec["source"] is not None else name
             attr = attr_of.get(json_name, name)
             cell = f"{'renamed' if attr != json_name else 'plain'}.{kinds[name]}." \
                    f"{'supplied' if supplied else 'omitted'}"
